@@ -1922,3 +1922,119 @@ R("redeem-error-switch", ["C18"],
 		return helpers.LogAndReturnFalse(ctx.Logger, action.ErrInvalidExtTx, redeem.Tags(), errors.New("no request"))
 	}
 """))
+
+# ------------------------------------------------------------------ more refactors (behaviour preserving)
+R("createobject-entry-chosen-first", ["C16"],
+  ("vm/statedb_aux.go", """	if prevObj == nil {
+		s.journal.append(createObjectChange{account: &addr})
+	} else {
+		s.journal.append(resetObjectChange{prev: prevObj})
+	}
+""", """	var entry journalEntry
+	if prevObj == nil {
+		entry = createObjectChange{account: &addr}
+	} else {
+		entry = resetObjectChange{prev: prevObj}
+	}
+	s.journal.append(entry)
+"""))
+R("setstate-journal-helper", ["C16"],
+  (SOBJ, """	so.stateDB.journal.append(storageChange{
+		account:   &so.address,
+		key:       prefixKey,
+		prevValue: prev,
+	})
+	so.setState(prefixKey, value)""", """	so.journalStorage(prefixKey, prev)
+	so.setState(prefixKey, value)"""),
+  (SOBJ, """// GetCommittedState retrieves a value from the committed account storage trie.""", """func (so *stateObject) journalStorage(key, prev ethcmn.Hash) {
+	so.stateDB.journal.append(storageChange{
+		account:   &so.address,
+		key:       key,
+		prevValue: prev,
+	})
+}
+
+// GetCommittedState retrieves a value from the committed account storage trie."""))
+R("delegate-guards-reordered", ["C02", "C12", "C18"],
+  (NDEL, """	coin := delegate.Amount.ToCoin(ctx.Currencies)
+	if !coin.IsValid() {
+		return helpers.LogAndReturnFalse(ctx.Logger, action.ErrInvalidAmount, delegate.Tags(), errors.New("Coin is not valid"))
+	}
+	if coin.Currency.Name != "OLT" {
+		return helpers.LogAndReturnFalse(ctx.Logger, action.ErrInvalidCurrency, delegate.Tags(), errors.New("currency is not OLT"))
+	}""", """	coin := delegate.Amount.ToCoin(ctx.Currencies)
+	switch {
+	case coin.Currency.Name != "OLT":
+		return helpers.LogAndReturnFalse(ctx.Logger, action.ErrInvalidCurrency, delegate.Tags(), errors.New("currency is not OLT"))
+	case !coin.IsValid():
+		return helpers.LogAndReturnFalse(ctx.Logger, action.ErrInvalidAmount, delegate.Tags(), errors.New("Coin is not valid"))
+	}"""))
+R("send-locals-renamed-and-hoisted", ["C02", "C03", "C18", "C04"],
+  (SEND, """	coin := send.Amount.ToCoin(ctx.Currencies)
+
+	err = balances.MinusFromAddress(send.From.Bytes(), coin)""", """	amount := send.Amount.ToCoin(ctx.Currencies)
+	coin := amount
+	payer, store := send.From.Bytes(), balances
+
+	err = store.MinusFromAddress(payer, coin)"""))
+R("transitiondb-refund-then-result-helper", ["C17"],
+  (STR, """	result := &ExecutionResult{
+		UsedGas:    st.gasUsed(),
+		Err:        vmerr,
+		ReturnData: ret,
+	}""", """	used := st.gasUsed()
+	result := &ExecutionResult{
+		UsedGas:    used,
+		Err:        vmerr,
+		ReturnData: ret,
+	}"""))
+R("pullrewards-cap-nested-if", ["C13"],
+  (RCUM, """	if burnedout && poolAmt.LessThan(*amount) {
+		*amount = *poolAmt
+	}""", """	if burnedout {
+		if poolAmt.LessThan(*amount) {
+			*amount = *poolAmt
+		}
+	}"""))
+R("withdraw-rewards-store-early-return-style", ["C13", "C02"],
+  (RCUM, """	err := rws.minusRewardsBalance(validator, amount)
+	if err != nil {
+		return errors.Wrap(err, "Minus from Matured Balance")
+	}
+	err = rws.addWithdrawnRewards(validator, amount)
+	if err != nil {
+		return errors.Wrap(err, "Add to Withdraw Balance")
+	}
+
+	return nil""", """	if err := rws.minusRewardsBalance(validator, amount); err != nil {
+		return errors.Wrap(err, "Minus from Matured Balance")
+	}
+	if err := rws.addWithdrawnRewards(validator, amount); err != nil {
+		return errors.Wrap(err, "Add to Withdraw Balance")
+	}
+	return nil"""))
+R("basicfee-signer-helper", ["C03", "C02"],
+  (BASE, """	// only charge the first signer for now
+	signer := signedTx.Signatures[0].Signer
+	h, err := signer.GetHandler()
+	if err != nil {
+		return false, Response{Log: err.Error()}
+	}
+	addr := h.Address()
+""", """	// only charge the first signer for now
+	first := signedTx.Signatures[0]
+	h, err := first.Signer.GetHandler()
+	if err != nil {
+		return false, Response{Log: err.Error()}
+	}
+	var addr keys.Address = h.Address()
+"""))
+R("prepare-restart-branch-inverted", ["C08"],
+  (APPL, """	//get currencies from governance db
+	if !app.Context.govern.InitialChain() {""", """	//get currencies from governance db
+	if initial := app.Context.govern.InitialChain(); initial == false {"""))
+R("undelegate-mature-height-helper", ["C12"],
+  (NUND, """	matureHeight := ctx.Header.GetHeight() + delegationOptions.RewardsMaturityTime
+""", """	now := ctx.Header.GetHeight()
+	matureHeight := now + delegationOptions.RewardsMaturityTime
+"""))
